@@ -1,5 +1,5 @@
 (* Dispatcher entries for row-image cells (glue; no theorem depends on it). *)
-From GB Require Import Base.Prelude Base.DecText Base.Sexp Model.Cell Model.Alias Spec.Values.
+From GB Require Import Base.Prelude Base.DecText Base.Sexp Model.Cell Model.Alias Spec.Values Spec.EncJson.
 From Coq Require Import String.
 Open Scope string_scope.
 Open Scope list_scope.
@@ -41,6 +41,88 @@ Definition parse_ty (v : val) : option coltype :=
   | _ => None
   end.
 
+(* ---- JSON documents (Spec/EncJson.v), shared with Model/DispatchJson.v ----
+   <doc> ::= null | true | false
+           | (obj L (x<key> <doc>) ...) | (arr L <doc> ...)          L = 0 | 1 (large format)
+           | (i16 z) (u16 z) (i32 z) (u32 z) (i64 z) (u64 z) (dbl bits) (str x<hex>)
+           | (date y m d) | (time neg h mi s us) | (datetime y m d h mi s us)
+           | (dec p s neg (ip ...) (fp ...)) *)
+(* oracle marker: the harness substitutes strconv.AppendFloat(nil, f, 'E', -1, 64) *)
+(* the backslash cannot occur in the rendering of a wf document, so the marker is unambiguous *)
+Definition efmt_marker (bits : Z) : bytes := str "\E64:" ++ digs bits ++ str ";".
+
+Fixpoint parse_doc (v : val) : option jdoc :=
+  match v with
+  | A a =>
+    if bytes_eqb a (str "null") then Some JNull
+    else if bytes_eqb a (str "true") then Some JTrue
+    else if bytes_eqb a (str "false") then Some JFalse
+    else None
+  | L (A n :: args) =>
+    let is s := bytes_eqb n (str s) in
+    if is "obj" then
+      match args with
+      | lg :: members =>
+        match as_bool lg,
+              (fix go (l : list val) : option (list (bytes * jdoc)) :=
+                 match l with
+                 | [] => Some []
+                 | L [k; x] :: r =>
+                   match as_hex k, parse_doc x, go r with
+                   | Some k', Some x', Some r' => Some ((k', x') :: r')
+                   | _, _, _ => None
+                   end
+                 | _ => None
+                 end) members with
+        | Some lg', Some kvs => Some (JObj lg' kvs)
+        | _, _ => None
+        end
+      | _ => None
+      end
+    else if is "arr" then
+      match args with
+      | lg :: elems =>
+        match as_bool lg,
+              (fix go (l : list val) : option (list jdoc) :=
+                 match l with
+                 | [] => Some []
+                 | x :: r =>
+                   match parse_doc x, go r with
+                   | Some x', Some r' => Some (x' :: r')
+                   | _, _ => None
+                   end
+                 end) elems with
+        | Some lg', Some vs => Some (JArr lg' vs)
+        | _, _ => None
+        end
+      | _ => None
+      end
+    else if is "str" then
+      match args with [s] => option_map JStr (as_hex s) | _ => None end
+    else if is "dec" then
+      match args with
+      | [p; s; ng; L ip; L fp] =>
+        match as_int p, as_int s, as_bool ng, map_opt as_int ip, map_opt as_int fp with
+        | Some p', Some s', Some g, Some i, Some f => Some (JDecimal p' s' g i f)
+        | _, _, _, _, _ => None
+        end
+      | _ => None
+      end
+    else
+      match map_opt as_int args with
+      | Some [z] =>
+        if is "i16" then Some (JInt16 z) else if is "u16" then Some (JUint16 z)
+        else if is "i32" then Some (JInt32 z) else if is "u32" then Some (JUint32 z)
+        else if is "i64" then Some (JInt64 z) else if is "u64" then Some (JUint64 z)
+        else if is "dbl" then Some (JDouble z) else None
+      | Some [y; m; d] => if is "date" then Some (JDate y m d) else None
+      | Some [ng; h; mi; s; us] => if is "time" then Some (JTime (negb (ng =? 0)) h mi s us) else None
+      | Some [y; m; d; h; mi; s; us] => if is "datetime" then Some (JDateTime y m d h mi s us) else None
+      | _ => None
+      end
+  | _ => None
+  end.
+
 Definition parse_value (v : val) : option value :=
   match v with
   | L [A n; x] =>
@@ -52,6 +134,7 @@ Definition parse_value (v : val) : option value :=
     else if is "enum" then option_map VEnum (as_int x)
     else if is "set" then option_map VSet (as_int x)
     else if is "bytes" then option_map VBytes (as_hex x)
+    else if is "json" then option_map VJson (parse_doc x)          (* (json <doc>) *)
     else None
   | L [A n; ng; L ip; L fp] =>
     if bytes_eqb n (str "dec") then
@@ -86,7 +169,7 @@ Definition dispatch_cell (jsonp : bytes -> res bytes) (op : bytes) (args : list 
         let enc := enc_cell ty v in
         let d := pre ++ enc ++ rest in
         Some (L [vbool (wf_type ty && wf_value ty u v); vint (code_of ty); vint (meta_of ty); vhex enc;
-                 vhex (text ffmt_marker tz ty u v);
+                 vhex (text ffmt_marker tz efmt_marker ty u v);
                  v_cellres (cell_bytes ffmt_marker tz jsonp d (List.length pre) (code_of ty) (meta_of ty) u);
                  vres (fun z => [vint z]) (cell_length d (List.length pre) (code_of ty) (meta_of ty))])
       | _, _, _, _, _, _ => Some (L [vsym "bad"%string; vsym "cell-args"%string])
